@@ -247,7 +247,7 @@ def replay_cex(prop, meta, cfg, fn_arg_types, rty, model, kind, outroot=None):
     json.dump(case, open(os.path.join(outdir, 'case.json'), 'w'), indent=1, default=str)
     sh = os.path.join(outdir, 'run.sh')
     open(sh, 'w').write('#!/bin/sh\n# replays a counterexample against the real headers; exit 1 if the violation reproduces\n'
-                        'exec python3-vt -m avelverif.memreplay "%s"\n' % outdir)
+                        'cd "%s" && exec python3-vt -m avelverif.memreplay "%s"\n' % (replay.ROOT, outdir))
     os.chmod(sh, 0o755)
     return {'confirmed': confirmed, 'detail': details, 'path': sh, 'inputs': [json.dumps(inputs)], 'rm': 'RNE'}
 
